@@ -172,6 +172,8 @@ def toidentifier(value):
         except OverflowError:
             intvalue = None
         if value == intvalue and intvalue.bit_length() <= 64:
+            if intvalue == 0 and math.copysign(1.0, value) < 0:
+                return "fneg0"  # -0.0 and 0.0 are different constants
             return "f" + toidentifier(intvalue)
         if math.isinf(value):
             return "posinf" if value > 0 else "neginf"
@@ -187,6 +189,8 @@ def toidentifier(value):
         except OverflowError:
             intvalue = None
         if value == intvalue and intvalue.bit_length() <= value.dtype.itemsize * 8:
+            if intvalue == 0 and numpy.signbit(value):
+                return value.dtype.kind + "neg0"  # -0.0 and 0.0 are different constants
             return value.dtype.kind + toidentifier(intvalue)
         if numpy.isposinf(value):
             return "posinf"
